@@ -58,7 +58,7 @@ ASSUMPTIONS = [
   'before Close() returns',
   'the aperture model (HeapBalancer with Aperture = TRUE) and the aperture family configure load-based resizing '
   'and jitter off; the seeded random histories also run with them on',
-  'a livelock of the code under test is cut by a CPU-time watchdog (10 s) and an exception it raises into its '
+  'a livelock of the code under test is cut by a CPU-time watchdog (5 s of CPU) and an exception it raises into its '
   'caller is recorded; the history recorded so far is judged in both cases',
 ]
 RULE = {
@@ -95,7 +95,8 @@ RULE = {
 }
 
 STNAME = {1: 'Idle', 2: 'Open', 3: 'Busy', 4: 'Closed'}
-WATCHDOG_CPU_S = 10.0
+WATCHDOG_CPU_S = 5.0       # CPU seconds (a case normally needs well under 0.2 s)
+CASE_TIMEOUT = 900         # real-time backstop only: on a heavily loaded machine 5 CPU s can take minutes
 
 
 # ====================================================================== models
